@@ -3,7 +3,7 @@ from lib import semcheck, progs
 from lib.semcheck import impl, model_expr, compare, oracle, describe, shrink, IMPORTS
 
 ID = 'C01'
-THEOREMS = ['C01_compile_program_total', 'C01_compiled_program_computes_reference', 'C01_compiled_program_is_sld', 'C01_source_text_is_sld', 'C01_front_good', 'C01_naming_equals_renaming_apart', 'C01_body_code_correct', 'C01_fresh_head_variable', 'C01_activations_use_fresh_cells', 'C01_distinct_variables_distinct_cells', 'C01_call_never_cuts']
+THEOREMS = ['C01_compile_program_total', 'C01_compiled_program_computes_reference', 'C01_compiled_program_is_sld', 'C01_source_text_is_sld', 'C01_front_good', 'C01_naming_equals_renaming_apart', 'C01_body_code_correct', 'C01_fresh_head_variable', 'C01_activations_use_fresh_cells', 'C01_distinct_variables_distinct_cells', 'C01_anon_numbered', 'C01_anon_name_injective', 'C01_anon_name_not_a_source_variable', 'C01_call_never_cuts']
 CASE_TIMEOUT = 60
 MODEL_NEEDS_IMPL = True
 COQ_CHUNK = 20
@@ -12,7 +12,14 @@ RULE = ('random programs of facts and rules (2-5 predicates of arity 0-3 with 1-
         'bodies: conjunctions of calls, =, \\=, true, fail) x 2-8 queries with unbound / partially bound / aliased arguments. Compared: the '
         'first 150 canonical answers (resolved query variables, unbound variables renamed by first occurrence over the whole answer tuple, which '
         'records aliasing), the number of answers and how the enumeration ended, between the implementation, the Coq model of the compiled '
-        'code (IR semantics) and the Coq SLD reference semantics. Non-trivial: some query has >= 1 answer and the program has a rule with a body '
+        'code (IR semantics) and the Coq SLD reference semantics. Generator modes added in round 3: "role churn" (all clauses of a predicate use the '
+        'same variable name per argument position in changing roles: plain argument / nested / repeated / body-only / absent; 3-5 clauses); '
+        '"adversarial identifiers" (40% of the programs: variables renamed per clause or per program into names that look like compiler-invented '
+        'ones - _<N>, _G<N>, _x<N>, X<N>, V_<N>, V_X, Arg<N>, L<N>, CutIf<N>, case/underscore variants of each other - with N taken from the '
+        'index of the clause\'s own `_` in the text or clause (0/1-based), argument positions and small numbers; constants replaced by `_`; '
+        'predicates and atoms renamed to x1, arg1, l1, doBreak, cutIf1, p_1, p0_n, def, pass, ...); "anonymous-variable programs" (facts with '
+        'pairwise different / equal arguments, rules full of `_` next to 1-3 named variables with adversarial names: an answer exists only if '
+        'every `_` is a variable of its own). Non-trivial: some query has >= 1 answer and the program has a rule with a body '
         'goal or a repeated/nested head variable.')
 TRUSTED_BASE = []
 
@@ -20,12 +27,25 @@ def gen(rng, tier):
     n = 220 if tier == 'quick' else 5000
     cases = []
     for _ in range(n):
-        o = progs.Opts(open_leaves=0.5 if rng.random() < 0.3 else 0.0, control=False, cut=False, builtins=False, deep=rng.random() < 0.1)
+        o = progs.Opts(open_leaves=0.5 if rng.random() < 0.3 else 0.0, control=False, cut=False, builtins=False, deep=rng.random() < 0.1,
+                       churn=rng.choice([0.0, 0.0, 0.3, 0.6]))
         p = progs.gen_program(rng, o)
-        cases.append({'clauses': p['clauses'], 'queries': p['queries']})
+        adv = rng.random() < 0.4
+        if adv:
+            # identifiers that look like the names the compiler invents (x<N>, V_<name>, arg<i>, l<k>, cutIf<k>, <name>_<arity>) or like
+            # what another mangling scheme would invent (_<N>, _G<N>, ...), mixed with several `_` in the same clause
+            p = progs.adversarial_program(rng, p)
+        cases.append({'clauses': p['clauses'], 'queries': p['queries'], 'adversarial': adv})
     for _ in range(n // 4):
         p = progs.gen_alias_program(rng)
-        cases.append({'clauses': p['clauses'], 'queries': p['queries']})
+        adv = rng.random() < 0.3
+        if adv:
+            p = progs.adversarial_program(rng, p)
+        cases.append({'clauses': p['clauses'], 'queries': p['queries'], 'adversarial': adv})
+    for _ in range(n // 4):
+        # "every `_` is a distinct variable": clauses full of `_` next to named variables with adversarial names
+        p = progs.gen_anon_program(rng)
+        cases.append({'clauses': p['clauses'], 'queries': p['queries'], 'anon': True})
     return cases
 
 def builtin_corpus():
@@ -47,6 +67,19 @@ def builtin_corpus():
     prog([['p', [V('X')], ['and', ['call', '=', [V('X'), V('Y')]], ['call', 'q', [V('Y')]]]], ['q', [A('a')], ['true']], ['q', [A('b')], ['true']]], [['p', [V('Q0')]]])
     prog([['l', [V('X'), V('Y')], ['and', ['call', 's', [V('X'), V('Y')]], ['and', ['call', 'm', [V('Y')]], ['call', '=', [V('X'), A('c')]]]]],
           ['s', [V('X'), V('X')], ['true']], ['m', [A('a')], ['true']], ['m', [A('b')], ['true']], ['m', [A('c')], ['true']]], [['l', [V('Q0'), V('Q1')]]])
+    # `_` next to named variables that look like names a compiler could invent for `_` (every `_` is a variable of its own)
+    d = [['d', [A('a'), A('b')], ['true']], ['d', [A('b'), A('c')], ['true']]]
+    call = lambda f, *a: ['call', f, list(a)]
+    prog(d + [['r', [V('_'), V('_1'), V('_2'), V('_')], call('d', V('_1'), V('_2'))],
+              ['s', [V('_0'), V('_')], ['and', call('d', V('_'), V('_0')), call('d', V('_3'), V('_'))]],
+              ['t', [V('X1'), V('_'), V('_x1'), V('_G1')], ['and', call('d', V('X1'), V('_')), ['and', call('d', V('_x1'), V('_G1')), call('d', V('_'), V('_7'))]]],
+              ['u', [V('V_x1'), V('_'), V('Arg1')], ['and', call('d', V('_'), V('V_x1')), call('=', V('Arg1'), F('f', V('_'), V('__'), V('_')))]]],
+         [['r', [V('Q0'), V('Q1'), V('Q2'), V('Q3')]], ['r', [A('c'), V('Q0'), V('Q1'), A('a')]], ['s', [V('Q0'), V('Q1')]], ['s', [A('c'), A('a')]],
+          ['t', [V('Q0'), V('Q1'), V('Q2'), V('Q3')]], ['t', [A('a'), A('c'), A('b'), V('Q0')]], ['u', [V('Q0'), V('Q1'), V('Q2')]], ['u', [A('c'), A('a'), F('f', A('a'), A('b'), A('c'))]]])
+    # the same variable name per argument position in changing roles over the clauses of one predicate
+    prog([['e', [V('X'), A('plain')], call('d', V('X'), V('_'))], ['e', [F('f', V('X')), A('nested')], call('d', V('X'), V('_'))],
+          ['e', [V('X'), V('X')], ['true']], ['e', [V('X'), A('again')], call('d', V('_'), V('X'))], ['e', [V('Y'), A('other')], call('d', V('X'), V('Y'))]] + d,
+         [['e', [V('Q0'), V('Q1')]], ['e', [A('b'), V('Q0')]], ['e', [V('Q0'), A('again')]], ['e', [F('f', V('Q0')), V('Q1')]]])
     return L
 
 def nontrivial(case, io):
